@@ -10,7 +10,10 @@ ops (booleans 0/1):
   unlock <pwOk> <ticketOnly> <timeout>  -> ok | ErrInputPassword | ErrVerifyOldpasswdFail
   lock | timer | restart                -> ok
   read                                  -> locked | unlocked
-  guarded                               -> secret | ErrWalletIsLocked
+  guarded                               -> secret | ErrWalletIsLocked | ErrOnlyTicketUnLocked
+  gticket                               -> secret | ErrWalletIsLocked     (GetAllPrivKeys / SendToAddress to the consensus
+                                                                           contract: accept "locked, ticket unlocked")
+  reporter <01>                         -> ok      (the registered mineStatusReporter now reports ticket unlocked = 1)
   sign none|wallet|foreign none|valid|garbage
                                         -> signed:stored | signed:supplied | ErrWalletIsLocked | ErrAddrNotExist |
                                            ErrNoPrivKeyOrAddr | ErrPrivkey      (SignRawTx with both key-selecting fields)
@@ -62,6 +65,8 @@ def label? (ws : List String) : Option Label :=
   | ["timer"] => some .timer
   | ["read"] => some .read
   | ["guarded"] => some .guarded
+  | ["gticket"] => some .guardedTicket
+  | ["reporter", b] => do pure (.reporter (← bool? b))
   | ["spbegin", a, b, c] => do pure (.spBegin (← bool? a) (← bool? b) (← bool? c))
   | ["spstep"] => some .spStep
   | ["restart"] => some .restart
